@@ -429,7 +429,7 @@ def minimise(case, signature, watchdog=None, max_trials=400):
         c["fs"] = fs
         return signature in signatures(c, wd)
 
-    if not pred(case["files"], case["fs"]):
+    if signature == "<keep>" or not pred(case["files"], case["fs"]):
         return jsonable(case), 0
     # drop whole files / fs entries first
     files = [tuple(f) for f in case["files"]]
